@@ -95,6 +95,8 @@ Bounded == (Done /\ ~o.refused) =>
    LET i0 == Lo(c.fl2) + PhOff(c)  i1 == Hi(c.fl2) + PhOff(c) IN
    /\ Le(I(Tas(c.ph, i0)), o.tas) /\ Le(o.tas, I(Tas(c.ph, i1)))
 \* the symbolic masses mean the extreme table masses
+\* (a numeric mass is a number: float, Python int, numpy integer or numpy float - MassForms - mean the same mass)
+MassForms == {"float", "int", "np.int64", "np.float64"}
 SymbolicMass == (Done /\ c.m2 \in {100, 101}) => o = EvalOut([c EXCEPT !.m2 = IF c.m2 = 100 THEN 0 ELSE 4])
 
 -----------------------------------------------------------------------------
